@@ -210,9 +210,11 @@ func main() {
 					break
 				}
 				if obs.Stage == "harness" {
-					run.Fail(idx, "escaped-panic-or-timeout", tag+": "+obs.String(), c)
+					// a panic that escapes Execute: the remaining schedulers run units in goroutines of
+					// their own, where it would take the harness down with it
+					run.Fail(idx, "escaped-panic-or-timeout", tag+": "+obs.String()+"\nquery: "+text, c)
 					bad = true
-					continue
+					break
 				}
 				if obs.Stage == "parse" || obs.Stage == "prepare" {
 					run.Fail(idx, "harness-generated-invalid-query", obs.String()+"  "+text, c)
